@@ -288,6 +288,10 @@ def run(ctx):
     # D8: generated stores into ex->accumulators[] are exactly slot-sized: nothing is written past the executor (shared with C07 D6)
     import importlib as _il
     _il.import_module("rules.c07").d6_acc_slot_width(db, rep, "D8-ACC-SLOT-WIDTH")
+    # D9: SSE/AVX code must not execute an MMX instruction (it leaves the x87 tag word non-empty and the sse/avx back ends emit no
+    # emms): the prefix that tells `pxor %xmm` from `pxor %mm` is chosen from the operands' register bank (shared with C12)
+    from x86enc import check_bank_prefix
+    check_bank_prefix(db, rep, "D9-BANK-PREFIX")
     # D7: the generated loops process exactly ex->n elements: the region counters tile n on every emitted path (shared with
     # C03 D10) - otherwise the function writes past the end of its destination arrays
     import emitsym
